@@ -236,7 +236,7 @@ func f64sIfNumeric(t tensor.Tensor) []float64 {
 
 func c03Gen(rt *rapid.T) c03Case {
 	var c c03Case
-	c.op = rapid.SampledFrom(c03Ops).Draw(rt, "op")
+	c.op = drawOp(rt, c03Ops)
 	probe := runOpConstraints(c.op)
 	c.dt = rapid.SampledFrom(probe[0]).Draw(rt, "dtype")
 	// weight towards the must-compute types
